@@ -22,4 +22,20 @@ PROPS = {
                         "reals are exactly representable dyadic rationals; NaN/Inf/-0 outside the model"],
         "trusted": ["aliasing (inputs not altered) is observed on the implementation, true by construction in the model"],
     },
+    "C11": {
+        "level_text": ("Theorems (Props/C11.v, axiom-free): for every chain of row states of any length over any column kinds, folding merge.go's "
+                       "merge/mergeRowUpdate/mergeModifyRow over the per-step updates gives exactly the single net update (first old, last new, modify = "
+                       "difference first->last, vanishing iff unchanged, insert+changes = one insert, change+delete = one delete); the only rejected "
+                       "sequence (delete then re-insert of a pre-existing row) is characterised. Tied to the code by driving ModelUpdates.AddOperation / Merge "
+                       "with generated operation sequences (update, all mutators, insert, delete; restoring and overlapping values) and evaluating the model on them."),
+        "level_note": ("Trusted: Coq kernel + vm_compute, std++; Go harness; hand-written model of updates/{merge,updates,mutate}.go validated by the correspondence "
+                       "(every accumulated update: old/new model, kind, Modify row, Old/New/Insert rows, GetModel, GetRow; and which operation errors). "
+                       "Integer overflow and non-finite reals are outside the model."),
+        "rule": ("random sequences of 2..6 (thorough 2..12) insert/update/mutate/delete operations on one row of a 23-column table covering all column kinds, "
+                 "biased to restore original values and to overlap set elements/map keys; both accumulation paths. Distinct by the full case term; "
+                 "non-trivial when the sequence has >= 3 operations and >= 1 column is touched by >= 2 of them."),
+        "tags": {1: "index of the operation that errors", 2: "update present vs vanished", 3: "old model", 4: "new model", 5: "kind / modify row / insert row",
+                 6: "RowUpdate2.Old", 7: "RowUpdate2.New", 8: "GetModel", 9: "GetRow"},
+        "assumptions": ["rows are well typed for the table; integer arithmetic does not overflow int64; reals are exact dyadic values"],
+    },
 }
